@@ -2,6 +2,7 @@
 From Coq Require Import ZArith List.
 From mathcomp Require Import all_ssreflect all_algebra.
 From SV Require Import Names Rep Complex Homology ListMat SnfCount Rank Betti RepInv ZCycles ZProofs ZProofs2 Shapes ShapesReach ZIndep ZAll.
+From SV Require ZBoundary.
 
 (* smithNormalForm(k) has the shape of the order-k boundary operator, ones on a leading stretch of
    the diagonal whose length is that operator's GF(2) rank, zeros elsewhere -- for every
@@ -51,3 +52,11 @@ Theorem C07_Z_is_a_cycle_basis :
              (fun t j => par (lab_in (simplicesOfOrder r k)) (List.nth j (Z1 r k) nil) t)) = length (Z1 r k).
 Proof. exact Z1_is_a_cycle_basis. Qed.
 Print Assumptions C07_Z_is_a_cycle_basis.
+
+(* THROUGH THE PUBLIC CALL, every complex of every history (shape invariant) and every order:
+   boundary() accepts every chain Z() returns -- its members are simplices of that order -- and
+   answers the empty list *)
+Theorem C07_returned_chains_have_empty_boundary :
+  forall r k ch, sinv r -> List.In ch (Z1 r k) -> boundary r ch = Ok nil.
+Proof. exact ZBoundary.Z1_boundary_empty. Qed.
+Print Assumptions C07_returned_chains_have_empty_boundary.
